@@ -109,6 +109,37 @@ def dirty_gate(x1: str, y1: str, x2: str, y2: str, x3: str, y3: str, allow_dirty
     return _exits(text, allow_dirty) == _expected(lines, allow_dirty)
 
 
+HG_ALPHABET = "MAR!?"
+
+
+def dirty_gate_hg(x1: str, k1: int, x2: str, k2: int, n: int, allow_dirty: bool) -> bool:
+    """mercurial command set: `hg status -umard` prints '<letter> <path>'. A listed pattern file always blocks; a tracked change
+    blocks unless --allow-dirty; an empty status passes (what an untracked unrelated file does under hg is not claimed)
+    pre: len(x1) == 1 and x1 in HG_ALPHABET and len(x2) == 1 and x2 in HG_ALPHABET and 0 <= k1 <= 1 and 0 <= k2 <= 1 and 1 <= n <= 2
+    post: _
+    """
+    lines = [(x1, k1)] + ([(x2, k2)] if n == 2 else [])
+    text = "".join(x + " " + _path(k) + "\n" for x, k in lines)
+    stub = _SP(text)
+    real_sp = vcs.sp
+    vcs.sp = stub
+    exited = False
+    try:
+        try:
+            vcs.assert_not_dirty(vcs.VCSAPI("hg"), {PATTERN_FILE}, allow_dirty)
+        except SystemExit as ex:
+            exited = ex.code != 0
+    finally:
+        vcs.sp = real_sp
+    pattern_dirty = any(k == 0 for _x, k in lines)
+    tracked_change = any(x != "?" for x, _k in lines)
+    if pattern_dirty or (tracked_change and not allow_dirty):
+        return exited
+    if allow_dirty:
+        return not exited
+    return True
+
+
 def clean_tree_passes(allow_dirty: bool) -> bool:
     """
     post: _
